@@ -57,17 +57,47 @@ def pass_model_name(p):
     return p[4:] if p.startswith("raw:") else p
 
 
-def reorder_cause(before, after):
-    """ReorderTypes permuted Module.Types but left Module.TypeUseOrder in the old numbering."""
+def reorder_cause(after, after2):
+    """The second application permuted Module.Types again although Module.TypeUseOrder did not change:
+    ReorderTypes leaves TypeUseOrder in the numbering that preceded its own permutation."""
     try:
-        if before["Types"] != after["Types"] and before.get("TypeUseOrder") == after.get("TypeUseOrder") and after.get("TypeUseOrder"):
+        if after2 is not None and after["Types"] != after2["Types"] and after.get("TypeUseOrder") == after2.get("TypeUseOrder") \
+                and after.get("TypeUseOrder") and sorted(json.dumps(t, sort_keys=True) for t in after["Types"]) != [] \
+                and len(after["Types"]) == len(after2["Types"]):
             return "stale-type-use-order"
     except Exception:
         pass
     return None
 
 
+def sroa_cause(before, after, msg):
+    """sroa rewrites a whole-struct Load into ExprCompose{Components: ...} without setting Type
+    (dxil/internal/passes/sroa/sroa.go decompose, step 4): the Compose then names type 0."""
+    if not msg.startswith("compose:"):
+        return None
+    try:
+        fb = [e["Function"] for e in before["EntryPoints"]] + before["Functions"]
+        fa = [e["Function"] for e in after["EntryPoints"]] + after["Functions"]
+        for x, y in zip(fb, fa):
+            for h, (eb, ea) in enumerate(zip(x["Expressions"], y["Expressions"])):
+                if eb["Kind"]["_t"] == "ExprLoad" and ea["Kind"]["_t"] == "ExprCompose" and ea["Kind"]["Type"] == 0:
+                    rec = (y["ExpressionTypes"][h] or {}).get("Handle") if h < len(y["ExpressionTypes"]) else None
+                    if rec not in (None, 0):
+                        return "compose-type-zero"
+    except Exception:
+        pass
+    return None
+
+
 def run(ctx):
+    _viol = ctx.violation
+
+    def violation(what, files=None, key=None, **kw):
+        files = dict(files or {})
+        if key is not None:
+            files["key.txt"] = key + "\n"
+        return _viol(what, files=files, key=key, **kw)
+    ctx.violation = violation
     tools = vcheck.build_harness(["passdrive", "goextract"])
     ok, failed, log = vcheck.proof_step(ctx, "Props/C13.v", MODEL_FILES,
                                         gen_writer=lambda: gen.regenerate(tools, ["irenums"]))
@@ -82,7 +112,7 @@ def run(ctx):
     ctx.assumptions = [
         "theorems assume module_wf (operands precede users, statement operands in range): evaluated on every module, see coverage.hypotheses",
         "direction of the theorems: every terminating run of the source is reproduced (same result, same fuel); a dead expression that fails in the source is not evaluated after the pass",
-        "compact_unused: proved for removal of functions only, under the evaluated side condition calls_closed; removal of globals is covered by the model tie and differential execution",
+        "compact_unused: proved for removal of functions only (hypotheses module_wf, calls_in_range, no global removed: all evaluated on every module); removal of globals is covered by the model tie and differential execution",
         "Load/ArrayLength expressions left without Emit by InlineUserFunctions are read as 'evaluated when used' (Passes/Lenient.v) for differential execution",
     ]
     broken = None
@@ -146,7 +176,7 @@ def run(ctx):
             if pr.get("after2_same"):
                 st["idempotent"] += 1
             elif p not in NO_IDEMPOTENCE:
-                cause = reorder_cause(before, after) if pass_model_name(p) in ("reorder_types", "lower_pipeline", "unused_pipeline") else None
+                cause = reorder_cause(after, pr.get("after2")) if pass_model_name(p) in ("reorder_types", "lower_pipeline", "unused_pipeline") else None
                 ctx.violation("pass %s is not idempotent on %s: applying it a second time changes the module again%s"
                               % (p, name, " (Module.TypeUseOrder still holds the pre-reordering handles)" if cause else ""),
                               files={"input.wgsl": src, "after.json": json.dumps(after), "after2.json": json.dumps(pr.get("after2"))},
@@ -182,12 +212,12 @@ def run(ctx):
             tie_broken[(name, p)] = "first difference at %s: model %s, Go %s" % (d[0], json.dumps(d[1])[:200], json.dumps(d[2])[:200])
 
     # ---- hypotheses of the theorems on the modules seen
-    hyp = {"modules": 0, "module_wf": 0, "module_known": 0, "calls_closed": 0, "no_global_removed": 0}
+    hyp = {"modules": 0, "module_wf": 0, "module_known": 0, "calls_in_range": 0, "calls_closed": 0, "no_global_removed": 0}
     for name, h in zip(hyp_meta, L.run_model_parallel(exe, hyp_jobs)):
         if not h.get("ok"):
             continue
         hyp["modules"] += 1
-        for k in ("module_wf", "module_known", "calls_closed", "no_global_removed"):
+        for k in ("module_wf", "module_known", "calls_in_range", "calls_closed", "no_global_removed"):
             hyp[k] += 1 if h["hyp"].get(k) else 0
         if not h["hyp"].get("calls_closed") and not L.out_of_model_fragment(usable[name]["before"]):
             tie_broken[(name, "compact_unused")] = tie_broken.get((name, "compact_unused")) or \
@@ -259,6 +289,17 @@ def run(ctx):
                     continue
                 msg = "no result within 10x the fuel BEFORE needed"
             what = "BEFORE terminates with a result, AFTER %s (%s)" % (b.get("kind"), msg)
+            if p == "stage:sroa" and b.get("kind") == "fail" and sroa_cause(before, after, msg):
+                diff_found.add((name, p))
+                if ("*", p) not in diff_found:
+                    diff_found.add(("*", p))
+                    ctx.violation("pass stage:sroa produces an ill-typed expression on %s (and on every function with a whole-struct load of a "
+                                  "decomposed local): the Load is rewritten to ExprCompose without Type, so it names type 0; the reference "
+                                  "interpreter stops with '%s'" % (name, msg),
+                                  files={"input.wgsl": dict(programs)[name], "after.json": json.dumps(after)},
+                                  key="diff:stage:sroa:compose-type-zero")
+                st["after_out_of_fragment"] += 1
+                continue
         else:
             st["runs_compared"] += 1
             ga, gb = L.named_globals(before, a), L.named_globals(after, b)
